@@ -33,7 +33,7 @@ RULE = ("G-mol (1-3 atoms from H..Ne, sto-3g/6-31g, generic orientation, grid le
         "Oracle: two-step 4th-order directional finite difference of excsum(dm+hD) vs sum(vmat*D) per spin channel; "
         "nelec vs independent sum_g w_g rho(r_g) with pyscf eval_rho; vmat symmetric. Non-trivial: |E_ML| > 1e-4|E_xc| "
         "and |Tr(vD)| > 1e-6; distinct by (molecule class, model signature, spin, calc options).")
-TOL = {"fd_rtol": 2e-6, "fd_rtol_nldf": 1e-4, "nelec_rtol": 1e-10, "hermiticity_rtol": 1e-10}
+TOL = {"fd_rtol": 2e-6, "fd_rtol_nldf": 1e-5, "nelec_rtol": 1e-10, "hermiticity_rtol": 1e-10}
 
 
 def _run(case, ctx):
@@ -96,7 +96,7 @@ def _run(case, ctx):
 
         # NLDF: the potential is the transpose of the feature Jacobian only up to the conditioning of the
         # auxiliary-basis Cholesky solve (DESIGN F5: composite adjointness 1e-5..1e-11); measured worst 3e-6.
-        rtol = 1e-4 if case["model"]["nldf"] else 2e-6
+        rtol = 1e-5 if case["model"]["nldf"] else 2e-6
         ok = ctx.fd_compare(f, an, ("dE_ddm", fam, "uks" if uks else "rks"), h=2e-3, rtol=rtol, atol=1e-9,
                             channel=s)
         if ok and abs(an) > 1e-6:
